@@ -186,8 +186,6 @@ def gen_case(rng, tier, idx):
         else:
             c = rng.choice(defined)
             kind = rng.choice(USE_OPS)
-            if kind == "toSchema" and any("ref" in f["kind"] for f in flat_fields(srcs, c)):
-                kind = "serialize"    # the model does not follow references through structure_to_schema
             ops.append({"op": kind, "c": c, "probe": "empty" if rng.random() < 0.15 else "valid"})
             n_use -= 1
     if rng.random() < 0.7:       # usually restore the global defaults at the end
@@ -198,7 +196,7 @@ def gen_case(rng, tier, idx):
 
 
 def directed_cases():
-    """the two known-finding shapes and their safe neighbours, always run"""
+    """the shapes of the two repaired defects (/repo 2a0935f, 6efdaf1) and their neighbours, always run"""
     t2 = [{"id": 0, "name": "User"}, {"id": 1, "name": "User"}]
     t2d = [{"id": 0, "name": "User"}, {"id": 1, "name": "Acct"}]
 
